@@ -30,6 +30,7 @@ type Store struct {
 	retainedCheckpointsUpdated chan []uint64
 	state                      storeState
 	stateMu                    sync.Mutex
+	publishMu                  sync.Mutex // serializes finishSnapshotAsync
 	sourceSplitters            []connectors.SourceSplitter
 }
 
@@ -201,6 +202,12 @@ func (s *Store) finishSnapshot(snap *jobSnapshot) {
 }
 
 func (s *Store) finishSnapshotAsync(snap *jobSnapshot) (uri string, err error) {
+	// One publication at a time: publishing the next checkpoint removes this
+	// one's snapshot file and lets the operators drop its files, which must not
+	// happen while a savepoint artifact is still being copied from them.
+	s.publishMu.Lock()
+	defer s.publishMu.Unlock()
+
 	data, err := snap.marshal()
 	if err != nil {
 		return "", err
